@@ -62,7 +62,7 @@ Definition run_case (x : sexp) : sexp :=
       | [nc; ax; t] =>
         match sx_bool nc, api_of_sx ax, ty_of_sx t with
         | Some nc', Some a, Some t' =>
-          match type_string a nc' t' init_gst with
+          match type_string (api_classes a) (api_reexport_map a) nc' t' init_gst with
           | Ok (s, st) => L [T"ok"; A s; of_list A (g_todos st); of_list A (g_imports st); of_list A (g_outside st)]
           | Err e => L [T"err"; sx_of_err e]
           end
